@@ -18,9 +18,9 @@ package postscript
 
 import (
 	"errors"
-	"fmt"
 	"io"
 	"math"
+	"reflect"
 	"strconv"
 
 	"seehuhn.de/go/postscript/psenc"
@@ -1333,35 +1333,79 @@ func bWhere(intp *Interpreter) error {
 }
 
 func equal(a, b Object) (bool, error) {
-	_, aIsDict := a.(Dict)
-	_, bIsDict := b.(Dict)
-	if aIsDict && bIsDict {
-		return isSameDict(a.(Dict), b.(Dict)), nil
+	// text of a string or name object
+	text := func(obj Object) (string, bool) {
+		switch obj := obj.(type) {
+		case String:
+			return string(obj), true
+		case Name:
+			return string(obj), true
+		case Operator:
+			return string(obj), true
+		}
+		return "", false
+	}
+	// elements of an array or procedure object
+	elements := func(obj Object) ([]Object, bool) {
+		switch obj := obj.(type) {
+		case Array:
+			return obj, true
+		case Procedure:
+			return obj, true
+		}
+		return nil, false
 	}
 
-	normalize := func(obj Object) (Object, error) {
-		switch obj := obj.(type) {
-		case Real:
-			return float64(obj), nil
+	switch a := a.(type) {
+	case Integer:
+		switch b := b.(type) {
 		case Integer:
-			return float64(obj), nil
-		case String:
-			return string(obj), nil
-		case Name:
-			return string(obj), nil
-		default:
-			return nil, &postScriptError{eTypecheck, fmt.Sprintf("equality not implemented for %T", obj)}
+			return a == b, nil
+		case Real:
+			return Real(a) == b, nil
 		}
+		return false, nil
+	case Real:
+		switch b := b.(type) {
+		case Integer:
+			return a == Real(b), nil
+		case Real:
+			return a == b, nil
+		}
+		return false, nil
+	case Boolean:
+		b, ok := b.(Boolean)
+		return ok && a == b, nil
+	case Dict:
+		b, ok := b.(Dict)
+		return ok && isSameDict(a, b), nil
+	case mark:
+		_, ok := b.(mark)
+		return ok, nil
+	case nil:
+		return b == nil, nil
+	case builtin:
+		b, ok := b.(builtin)
+		return ok && reflect.ValueOf(a).Pointer() == reflect.ValueOf(b).Pointer(), nil
+	case *CMapInfo:
+		b, ok := b.(*CMapInfo)
+		return ok && a == b, nil
 	}
-	a, err := normalize(a)
-	if err != nil {
-		return false, err
+
+	if ta, ok := text(a); ok {
+		tb, ok := text(b)
+		return ok && ta == tb, nil
 	}
-	b, err = normalize(b)
-	if err != nil {
-		return false, err
+	if ea, ok := elements(a); ok {
+		// composite objects are equal only if they share the same value
+		eb, ok := elements(b)
+		if !ok || len(ea) != len(eb) {
+			return false, nil
+		}
+		return len(ea) == 0 || &ea[0] == &eb[0], nil
 	}
-	return a == b, nil
+
+	return false, nil
 }
 
 func (intp *Interpreter) bindProc(proc Procedure) {
